@@ -578,6 +578,7 @@ var errnoByName = map[string]syscall.Errno{
 	"ENOTEMPTY": syscall.ENOTEMPTY, "EINVAL": syscall.EINVAL, "EBUSY": syscall.EBUSY,
 	"ENFILE": syscall.ENFILE, "ENOMEM": syscall.ENOMEM, "EINTR": syscall.EINTR,
 	"ESTALE": syscall.ESTALE, "EBADF": syscall.EBADF, "ENAMETOOLONG": syscall.ENAMETOOLONG,
+	"EAGAIN": syscall.EAGAIN,
 }
 
 // ErrnoName returns the symbolic name of an errno the simulator uses.
